@@ -58,7 +58,13 @@ def judge(prefix, cand, variant=None):
 
     data = (b''.join(section_bytes(s) for s in prefix) + gap +
             section_bytes(cand))
-    recs, err = sut.read_records(data, budget=False)
+    if variant and variant[0] == 'lockstep':
+        # other readers live in the same process; the order state is each
+        # reader's own
+        recs, err = sut.read_records_lockstep(data)
+    else:
+        recs, err = sut.read_records(data, budget=False)
+
     ids = [r.get('section') for r in recs]
 
     if prefix:
@@ -184,6 +190,7 @@ def run_chunk(chunk, st):
             if len(p) <= VARIANT_DEPTH and p:
                 variants += [('blank', n) for n in BLANK_RUNS]
                 variants.append(('empty-last',))
+                variants.append(('lockstep',))
 
             for variant in variants:
                 res = judge(p, cand, variant)
@@ -275,6 +282,8 @@ def strategy():
             case['variant'] = ['blank', draw(hs.sampled_from(BLANK_RUNS))]
         elif v == 2:
             case['variant'] = ['empty-last']
+        elif v == 3:
+            case['variant'] = ['lockstep']
 
         return case
 
